@@ -2,7 +2,7 @@
 from native import selftest_refinterp as ST
 from native.bounded._common import run_sections
 
-BOUND = "generated smooth+decomposable circuits: <= 3 variables with ids in 0..12 (ids >= 8 frequent), <= 3 units, sum arity <= 3, <= 2 outputs (outputs may feed other layers), Hadamard and Kronecker products, shared sub-circuits, layer budget ~5; 60 circuits (x4 thorough), Z = whole scope and one random proper subset, flags rotating, semirings sum-product / lse-sum; continuous variables by trapezoid quadrature on a truncated interval (rtol 2e-6)"
+BOUND = "generated smooth+decomposable circuits: <= 3 variables with ids in 0..12 (ids >= 8 frequent), <= 3 units, sum arity <= 3, <= 2 outputs (outputs may feed other layers), Hadamard and Kronecker products, shared sub-circuits, layer budget ~5; 60 circuits (x4 thorough), Z = whole scope and one random proper subset, plus a NESTED integration (Z1 then Z2) compared with the marginal over their union, flags rotating, semirings sum-product / lse-sum; continuous variables by trapezoid quadrature on a truncated interval (rtol 2e-6)"
 RULE = "one case = (circuit index, Z, fold, optimize, semiring); non-trivial when the marginal is non-zero"
 
 
